@@ -195,10 +195,11 @@ class ModelExecutor(BaseExecutor):
             except Exception as e:  # noqa
                 exc = e
         finally:
-            S.tid_stack.pop()
+            tid = S.tid_stack.pop()
             self.running -= 1
             if env is not None:
                 env.stage = prev_stage
+                env.stamp('task-end', self.stage, tid)
         fut._finish(res, exc)
 
     def shutdown(self, wait=True):
